@@ -41,7 +41,9 @@ pub fn req_obs(r: &parser::Request) -> Args {
         let lower = ks.to_ascii_lowercase();
         assert_eq!(r.get_var(VarName::new(&lower)), Some(&v[..]), "case-insensitive lookup failed");
         assert!(r.contains_var(VarName::new(ks)));
+        assert_eq!(r.get_var_str(VarName::new(ks)), std::str::from_utf8(v).ok(), "get_var_str is get_var + UTF-8 validation");
     }
+    assert!(!r.contains_var(VarName::new("FV_NO_SUCH_VARIABLE")) && r.get_var(VarName::new("FV_NO_SUCH_VARIABLE")).is_none());
     let mut out = vec![vec![
         u128::from(r.request_id.get()),
         u128::from(u16::from(r.role)),
